@@ -386,6 +386,87 @@ def check_input_signatures(run, model, env, rng, idx, boundary=None, boundary_le
         run.violation(case, bad, signature={'kind': 'input-signature', 'raw': raw.hex()[:64]})
 
 
+def script_num(n):
+    """minimal script-number push of a non-negative integer"""
+    if n == 0:
+        return b'\x00'
+    b = bytearray()
+    while n:
+        b.append(n & 0xff)
+        n >>= 8
+    if b[-1] & 0x80:
+        b.append(0)
+    return bytes([len(b)]) + bytes(b)
+
+
+def check_time_lock(run, model, env, rng, idx):
+    """the other kind of input the wallet signs: a pay-to-script-hash time lock (Transaction.spend_time_lock, the
+    account_deposit path). Standard SIGHASH_ALL: the script code of such an input is the REDEEM script it carries."""
+    height = rng.choice([17, 127, 128, 1000, 32767, 32768, 70000, 654321, rng.randrange(17, 2 ** 31 - 1)])
+    pk = PrivateKey.from_bytes(env.ledger, bytes([rng.randrange(1, 255)]) * 31 + bytes([rng.randrange(1, 255)]))
+    pub = pk.public_key.pubkey_bytes
+    redeem = script_num(height) + b'\xb1\x75\x76\xa9\x14' + hash160(pub) + b'\x88\xac'
+    feeder = Transaction().add_outputs([Output.pay_pubkey_hash(10 ** 10, rng.randbytes(20))])
+    pos = rng.choice([0, 1, 3])
+    outs = [Output.pay_pubkey_hash(1000 + j, rng.randbytes(20)) for j in range(pos)]
+    outs.append(Output.pay_script_hash(rng.randrange(10 ** 7, 10 ** 10), hash160(redeem)))
+    funding = Transaction().add_inputs([Input.spend(feeder.outputs[0])]).add_outputs(outs)
+    funding = Transaction(funding.raw, height=10)
+    locked = funding.outputs[pos]
+    case = {'kind': 'time-lock', 'index': idx, 'height': height, 'redeem': redeem.hex(), 'funding': funding.raw.hex(), 'pos': pos}
+    run.count('time-lock')
+    try:
+        tx = env.loop.run_until_complete(Transaction.spend_time_lock(locked, redeem, env.account))
+        env.loop.run_until_complete(tx.sign([env.account], {pk.address: pk}))
+        raw = tx.raw
+        ptx = parse_legacy_tx(raw)
+    except Exception as e:  # noqa
+        run.case(case, nontrivial=True, sample=False)
+        run.violation(case, f'spending a time-locked pay-to-script-hash output failed: {type(e).__name__}: {e}',
+                      signature={'kind': 'time-lock-build', 'height': height})
+        env.loop.run_until_complete(env.ledger.db.release_all_outputs())
+        return
+    case['raw'] = raw.hex()
+    run.case(case, nontrivial=True, sample=(idx < 1))
+    bad = None
+    if ptx['locktime'] != height:
+        bad = f'locktime {ptx["locktime"]} is not the lock height {height}'
+    for i, x in enumerate(ptx['ins']):
+        if bad:
+            break
+        try:
+            sig, o = read_push(x['script'], 0)
+            pub_i, o = read_push(x['script'], o)
+            carried, o = read_push(x['script'], o)
+            if o != len(x['script']):
+                raise ValueError('trailing bytes')
+        except Exception as e:  # noqa
+            bad = f'input {i}: scriptSig is not <sig> <pubkey> <redeem script>: {e!r}'
+            break
+        if carried != redeem or hash160(carried) != locked.script.values['script_hash']:
+            bad = f'input {i}: carried redeem script does not hash to the spent output'
+            break
+        if hash160(pub_i) != hash160(pub):
+            bad = f'input {i}: public key is not the one the redeem script pays to'
+            break
+        if not sig or sig[-1] != 1:
+            bad = f'input {i}: hash type byte is not SIGHASH_ALL'
+            break
+        pre = sighash_all_preimage(ptx, i, redeem)
+        if not ecdsa_verify_der(pub_i, dsha(pre), sig[:-1]):
+            wrong = sighash_all_preimage(ptx, i, locked.script.source)
+            note = ' (it verifies over the P2SH scriptPubKey instead)' if ecdsa_verify_der(pub_i, dsha(wrong), sig[:-1]) else ''
+            bad = f'input {i}: signature does not verify under the standard SIGHASH_ALL digest with the redeem script as script code{note}'
+            break
+        impl_pre = tx._serialize_for_signature(i)
+        mod_pre = model.call('preimage', tx=model_tx(ptx), i=i, script=redeem.hex())
+        if not run.compare('C04.sighash_preimage', {**case, 'input': i}, impl_pre.hex(), mod_pre):
+            break
+    env.loop.run_until_complete(env.ledger.db.release_all_outputs())
+    if bad:
+        run.violation(case, bad, signature={'kind': 'time-lock-signature', 'height': height})
+
+
 def extract_claim_parts(script):
     """claim-name / update script: returns raw claim bytes pushed as the claim value"""
     op = script[0]
@@ -402,12 +483,20 @@ def check_channel_signature(run, model, env, rng, idx, kind='claim'):
     pkh = rng.randbytes(20)
     first_in = Input.spend(funding_output(rng, COIN, rng.randbytes(20), rng.choice([0, 1, 5, 300])))
     extra_ins = [Input.spend(funding_output(rng, COIN, rng.randbytes(20), 0)) for _ in range(rng.randrange(0, 3))]
+    big = {0: 65450, 3: 70000, 4: 65536 - 86}.get(idx)   # payloads around and beyond the 2-byte push length (OP_PUSHDATA4)
     if kind == 'support':
         sup = Support()
         sup.emoji = rng.choice(['👍', 'x', ''])
+        if big:
+            sup.comment = 'c' * big
+            run.count('payload>64KiB' if len(sup.to_bytes()) + 84 > 65535 else 'payload~64KiB')
         txo = Output.pay_support_data_pubkey_hash(CENT, 'name', rng.randbytes(20).hex(), sup, pkh)
     else:
         claim = random_claim(rng)
+        if big:
+            claim = Claim()
+            claim.stream.description = 'd' * big
+            run.count('payload>64KiB' if len(claim.to_bytes()) + 84 > 65535 else 'payload~64KiB')
         if idx % 3 == 1:
             newer = with_unknown_fields(rng, claim)
             if newer is not None:
@@ -782,8 +871,8 @@ class StubServer:
     def __init__(self):
         self.by_url, self.raw = {}, {}
 
-    def publish(self, url, stream_raw, channel_raw):
-        self.by_url[url] = (Transaction(stream_raw), Transaction(channel_raw))
+    def publish(self, url, stream_raw, channel_raw, stream_nout=0, channel_nout=0):
+        self.by_url[url] = (Transaction(stream_raw), stream_nout, Transaction(channel_raw), channel_nout)
         for raw in (stream_raw, channel_raw):
             self.raw[Transaction(raw).id] = raw
 
@@ -796,15 +885,15 @@ class StubServer:
         page = OutputsMessage()
         seen = set()
         for url in urls:
-            stream_tx, channel_tx = self.by_url[url]
+            stream_tx, stream_nout, channel_tx, channel_nout = self.by_url[url]
             m = page.txos.add()
-            m.tx_hash, m.nout, m.height = stream_tx.hash, 0, 0
+            m.tx_hash, m.nout, m.height = stream_tx.hash, stream_nout, 0
             m.claim.short_url = url[len('lbry://'):]
-            m.claim.channel.tx_hash, m.claim.channel.nout, m.claim.channel.height = channel_tx.hash, 0, 0
-            if channel_tx.hash not in seen:
-                seen.add(channel_tx.hash)
+            m.claim.channel.tx_hash, m.claim.channel.nout, m.claim.channel.height = channel_tx.hash, channel_nout, 0
+            if (channel_tx.hash, channel_nout) not in seen:
+                seen.add((channel_tx.hash, channel_nout))
                 e = page.extra_txos.add()
-                e.tx_hash, e.nout, e.height = channel_tx.hash, 0, 0
+                e.tx_hash, e.nout, e.height = channel_tx.hash, channel_nout, 0
                 e.claim.short_url = url[len('lbry://'):].split('/')[0]
         return base64.b64encode(page.SerializeToString()).decode()
 
@@ -838,23 +927,56 @@ def check_resolve(run, env, rng):
     bad_old = _tamper(_tamper(old_stream, b'Here are 5 Reasons', b'Here are 6 Reasons'), old_name.encode(), bad_name.encode())
     urls['legacy-tampered'] = f'lbry://{chan_name}/{bad_name}'
     server.publish(urls['legacy-tampered'], bad_old, old_channel)
-    # current format
-    channel = env.channel(rng, 1)
-    claim = Claim()
-    claim.stream.title = 'a modern signed stream'
-    stream = Output.pay_claim_name_pubkey_hash(CENT, 'modern-stream', claim, rng.randbytes(20))
-    stx = Transaction().add_inputs([Input.spend(funding_output(rng, COIN, rng.randbytes(20), 0))]).add_outputs([stream])
-    stream.sign(channel)
-    stx._reset()
-    ctx_raw = channel.tx_ref.tx.raw
-    cname = channel.claim_name
-    # Ledger.resolve looks channels up at nout 0: only usable when the channel is the first output
-    if channel.position == 0:
-        urls['current-genuine'] = f'lbry://{cname}/modern-stream'
-        server.publish(urls['current-genuine'], stx.raw, ctx_raw)
-        bad_new = _tamper(_tamper(stx.raw, b'a modern signed stream', b'a modern signed strean'), b'modern-stream', b'modern-strean')
-        urls['current-tampered'] = f'lbry://{cname}/modern-strean'
-        server.publish(urls['current-tampered'], bad_new, ctx_raw)
+    # current format: every layout of (stream output index, channel output index), the channel possibly sharing its
+    # transaction with another channel
+    def two_channel_tx():
+        a = Output.pay_claim_name_pubkey_hash(CENT, '@twin-a', Claim(), rng.randbytes(20))
+        b = Output.pay_claim_name_pubkey_hash(CENT, '@twin-b', Claim(), rng.randbytes(20))
+        a.set_channel_private_key(env.root.child(KeyPath.CHANNEL).child(31))
+        b.set_channel_private_key(env.root.child(KeyPath.CHANNEL).child(32))
+        Transaction().add_inputs([Input.spend(funding_output(rng, COIN, rng.randbytes(20), 0))]).add_outputs([a, b])
+        return a, b
+
+    def signed_stream(name, title, channel, stream_pos, forged_key_of=None):
+        claim = Claim()
+        claim.stream.title = title
+        stream = Output.pay_claim_name_pubkey_hash(CENT, name, claim, rng.randbytes(20))
+        outs = [Output.pay_pubkey_hash(1000 + j, rng.randbytes(20)) for j in range(stream_pos)] + [stream]
+        stx = Transaction().add_inputs([Input.spend(funding_output(rng, COIN, rng.randbytes(20), 0))]).add_outputs(outs)
+        stream.sign(channel)
+        if forged_key_of is not None:
+            # names `channel` (its claim hash is in the envelope and in the digest) but carries a signature made with the
+            # key of ANOTHER channel: must never be accepted as signed by the channel it names
+            first = stx.inputs[0].txo_ref
+            digest = sha256(first.tx_ref.hash + struct.pack('<I', first.position) + channel.claim_hash
+                            + stream.signable.to_message_bytes())
+            stream.signable.signature = forged_key_of.private_key.sign_compact(digest)
+            stream.script.generate()
+        stx._reset()
+        return stx
+
+    twin_a, twin_b = two_channel_tx()
+    layouts = [('c0', env.channel(rng, 1), 0), ('c1', twin_b, 1), ('c2', twin_a, 2), ('c3', twin_b, 0)]
+    for tag, channel, stream_pos in layouts:
+        name = 'modern-' + tag
+        stx = signed_stream(name, 'a modern signed stream', channel, stream_pos)
+        ctx_raw = channel.tx_ref.tx.raw
+        cname = channel.claim_name
+        key = f'current-genuine:{tag}:stream@{stream_pos}/channel@{channel.position}'
+        urls[key] = f'lbry://{cname}/{name}'
+        server.publish(urls[key], stx.raw, ctx_raw, stream_pos, channel.position)
+        bad_name = name[:-1] + ('x' if name[-1] != 'x' else 'y')
+        bad_new = _tamper(_tamper(stx.raw, b'a modern signed stream', b'a modern signed strean'), name.encode(), bad_name.encode())
+        key = f'current-tampered:{tag}:stream@{stream_pos}/channel@{channel.position}'
+        urls[key] = f'lbry://{cname}/{bad_name}'
+        server.publish(urls[key], bad_new, ctx_raw, stream_pos, channel.position)
+    # the channel was changed: claims to be by twin A, signed with twin B's key (and the other way round)
+    for tag, named, signer, stream_pos in (('ab', twin_a, twin_b, 1), ('ba', twin_b, twin_a, 0)):
+        name = 'forged-' + tag
+        stx = signed_stream(name, 'names one channel, signed by another', named, stream_pos, forged_key_of=signer)
+        key = f'current-tampered:forged-{tag}:stream@{stream_pos}/channel@{named.position}'
+        urls[key] = f'lbry://{named.claim_name}/{name}'
+        server.publish(urls[key], stx.raw, named.tx_ref.tx.raw, stream_pos, named.position)
     for batch in ([u] for u in urls.values()):
         case = {'kind': 'resolve', 'urls': batch}
         run.case(case, nontrivial=True, sample=False)
@@ -867,10 +989,10 @@ def check_resolve(run, env, rng):
         for url in batch:
             kind = [k for k, v in urls.items() if v == url][0]
             good = isinstance(result[url], Output)
-            if kind.endswith('genuine') and not good:
+            if kind.split(':')[0].endswith('genuine') and not good:
                 run.violation(case, f'{kind}: a genuinely channel-signed claim is reported invalid by Ledger.resolve: {result[url]}',
                               signature={'kind': 'resolve', 'which': kind})
-            if kind.endswith('tampered') and good:
+            if kind.split(':')[0].endswith('tampered') and good:
                 run.violation(case, f'{kind}: a tampered claim is accepted as validly signed by Ledger.resolve',
                               signature={'kind': 'resolve', 'which': kind})
 
@@ -902,6 +1024,8 @@ def main(run):
         check_input_signatures(run, model, env, rng, 400253, boundary='n-inputs', boundary_len=253)
         for i in range(vlib.scaled(run.tier, 60, 1200)):
             check_input_signatures(run, model, env, rng, i)
+        for i in range(vlib.scaled(run.tier, 10, 200)):
+            check_time_lock(run, model, env, rng, i)
         for i in range(vlib.scaled(run.tier, 40, 800)):
             check_sign_sequences(run, model, env, rng, i)
         for i in range(vlib.scaled(run.tier, 40, 800)):
